@@ -71,11 +71,14 @@ type c15Op struct {
 var c15Transient = map[string]bool{"http500": true, "http502": true, "http503": true, "http504": true, "refused": true, "reseteof": true, "stall": true,
 	"be:retryable": true, "be:pkcs11-fatal": true, "be:hang": true,
 	"reset": true, "backlog": true}
-var c15Permanent = map[string]bool{"http400": true, "http403": true, "http404": true, "be:usage": true, "be:notimpl": true, "be:pkcs11-user": true,
+var c15Permanent = map[string]bool{"http400": true, "http403": true, "http404": true, "be:usage": true, "be:usage-pkcs11": true, "be:usage-pkcs11-fatal": true, "be:notimpl": true, "be:pkcs11-user": true,
 	// a reply that is not a reply (no JSON document, garbage instead of JSON, bytes
 	// that are not HTTP at all) is none of the transient failures the statement
 	// lists: retrying is allowed "only for transient failures"
-	"malformed": true, "empty200": true, "malformed-http": true}
+	"malformed": true, "empty200": true, "malformed-http": true,
+	// a complete JSON document followed by something else, and a document cut
+	// short inside intact HTTP framing (the body ends cleanly, the JSON does not)
+	"trailing": true, "truncated": true}
 
 // everything else (501, generic back-end error) is not classified by the
 // statement
@@ -123,14 +126,14 @@ func (rt *c15RT) pick(op *c15Op) (string, string) {
 		}
 		return "pass", ""
 	}
-	kinds := []string{"http503", "http500", "http502", "http504", "refused", "reseteof", "stall", "be", "http400", "http403", "http404", "malformed", "empty200", "malformed-http", "http501"}
+	kinds := []string{"http503", "http500", "http502", "http504", "refused", "reseteof", "stall", "be", "http400", "http403", "http404", "malformed", "empty200", "malformed-http", "http501", "trailing", "truncated"}
 	k := kinds[t.Choose(len(kinds), "attempt-fault")]
 	if k != "be" {
 		return k, ""
 	}
-	bes := []string{"retryable", "usage", "notimpl", "pkcs11-fatal", "pkcs11-user", "hang", "error"}
+	bes := []string{"retryable", "usage", "notimpl", "pkcs11-fatal", "pkcs11-user", "hang", "error", "usage-pkcs11", "usage-pkcs11-fatal"}
 	be := bes[t.Choose(len(bes), "backend-fault")]
-	if op.Kind == "ping" && be == "usage" {
+	if op.Kind == "ping" && strings.HasPrefix(be, "usage") {
 		be = "error" // a ping names no key: a key-usage error cannot arise
 	}
 	target := op.Kind
@@ -185,6 +188,10 @@ func (rt *c15RT) RoundTrip(req *http.Request) (*http.Response, error) {
 		return nil, errors.New("net/http: HTTP/1.x transport connection broken: malformed HTTP response \"<html>oops\"")
 	case outcome == "empty200":
 		return mkResp(req, 200, io.NopCloser(strings.NewReader(""))), nil
+	case outcome == "trailing":
+		return mkResp(req, 200, io.NopCloser(strings.NewReader(`{"Value":"c2ltdWxhdGVk"}{"Err":"simulated: second document","Retryable":false}`))), nil
+	case outcome == "truncated":
+		return mkResp(req, 200, io.NopCloser(strings.NewReader(`{"Value":"c2ltdWxhdGVk","Retr`))), nil
 	}
 	// pass: the real worker handler, on the real cache, over the sim token.
 	// The handler runs as its own task (the worker's connection goroutine):
@@ -540,6 +547,12 @@ func c15Judge(r *core.Run, op *c15Op, jp *c15Policy) {
 			if !rr.Usage || rr.Retryable || rr.Key != op.Label || rr.Err != usageMsg {
 				bad = "a key-usage error must cross the RPC boundary as Usage=true, Retryable=false with the key name and message intact"
 			}
+		case "usage-pkcs11", "usage-pkcs11-fatal":
+			// the classification is that of the error the token returned - a
+			// key-usage error - whatever caused it
+			if !rr.Usage || rr.Retryable || rr.Key != op.Label || rr.Err == "" {
+				bad = "a key-usage error (here caused by a PKCS#11 code) must cross the RPC boundary as Usage=true, Retryable=false with the key name"
+			}
 		case "notimpl", "pkcs11-user":
 			if rr.Err == "" || rr.Retryable || rr.Usage {
 				bad = "a permanent back-end error must be marked not retryable"
@@ -618,7 +631,7 @@ func c15Judge(r *core.Run, op *c15Op, jp *c15Policy) {
 				var ue token.KeyUsageError
 				if !errors.As(op.Err, &ue) {
 					r.Failf("C15.classification-lost", "usage", "back-end reported a key-usage error but the caller sees %T: %s", op.Err, desc)
-				} else if ue.Key != op.Label || ue.Err == nil || ue.Err.Error() != usageMsg {
+				} else if ue.Key != op.Label || ue.Err == nil || (ue.Err.Error() != usageMsg && strings.SplitN(la.Backend, "@", 2)[0] == "usage") {
 					r.Failf("C15.classification-lost", "usage-detail", "key-usage error arrived altered (key %q, message %v): %s", ue.Key, ue.Err, desc)
 				}
 			}
